@@ -174,7 +174,11 @@ pub fn generate(out: &mut Out, tier: &str, seed: u64) {
                         l(sels.clone()),
                         a(((ti + shrink as usize) % 3) as i64),
                     ]);
-                    let (i, o, nt) = ctx.exec(&req);
+                    // a panic while the store is built (none in the model) shows as a case whose
+                    // outputs are missing, with this request as the failing input
+                    let (i, o, nt) = guard(|| ctx.exec(&req)).unwrap_or_else(|| {
+                        (l(vec![req.nth(0).clone(), req.nth(2).clone(), req.nth(3).clone(), l(vec![])]), vec![l(vec![a(2)])], true)
+                    });
                     out.case(&i, &o, nt, &req);
                     out.count(&format!("interval{}", interval));
                 }
